@@ -91,6 +91,34 @@ theorem loopEF_hom (addA : A → A → A) (addB : B → B → B) (φ : A → B) 
       simp only [List.map_cons, loopEF]
       rw [ih _ h2.2, hi.1, hi.2]
 
+theorem crossLoop_hom (addA : A → A → A) (addB : B → B → B) (zA : A) (zB : B) (φ : A → B) (ψ : β → α)
+    (fA : α → α → A × A) (fB : β → β → B × B)
+    (hadd : ∀ a b, φ (addA a b) = addB (φ a) (φ b)) (hz : φ zA = zB)
+    (H : β → β → Prop)
+    (hf : ∀ pi pj, H pi pj → φ (fA (ψ pi) (ψ pj)).1 = (fB pi pj).1 ∧ φ (fA (ψ pi) (ψ pj)).2 = (fB pi pj).2)
+    (back : Bool) (act tst : List β) (accs : List A)
+    (h1 : ∀ pi ∈ tst, ∀ pj ∈ act, H pi pj) :
+    (crossLoop addA zA fA back (act.map ψ) accs (tst.map ψ)).1.map φ
+        = (crossLoop addB zB fB back act (accs.map φ) tst).1 ∧
+    (crossLoop addA zA fA back (act.map ψ) accs (tst.map ψ)).2.map φ
+        = (crossLoop addB zB fB back act (accs.map φ) tst).2 := by
+  induction tst generalizing accs with
+  | nil => simp [crossLoop]
+  | cons pi r ih =>
+    have hi := inner_hom addA addB φ ψ fA fB hadd pi act
+      (fun pj hpj => hf pi pj (h1 pi (by simp) pj hpj)) zA accs
+    have ih' := ih (if back then (inner addA fA (ψ pi) zA (act.map ψ) accs).2 else accs)
+      (fun p hp q hq => h1 p (by simp [hp]) q hq)
+    have hif : (if back then (inner addA fA (ψ pi) zA (act.map ψ) accs).2 else accs).map φ
+        = if back then (inner addB fB pi zB act (accs.map φ)).2 else accs.map φ := by
+      cases back
+      · simp
+      · simp only [if_true]; rw [hi.2, hz]
+    simp only [List.map_cons, crossLoop]
+    rw [hif] at ih'
+    refine ⟨ih'.1, ?_⟩
+    rw [ih'.2, hi.1, hz]
+
 end hom
 
 /-! ## the two loop orders agree for a kernel that is symmetric under exchange of the pair
